@@ -129,7 +129,7 @@ pub proof fn lemma_store_view(m0: Memory, m1: Memory, a: u64, c: il::Constant)
     let o2 = store_bytes(m0.own_map(), a as nat, e, w, c.value@);
     assert(vlen(c) == n);
     assert(c.le_bytes().len() == n);
-    assert forall|x: u64| o1.contains_key(x) == o2.contains_key(x) && (o1.contains_key(x) ==> o1[x] == o2[x]) by {
+    assert forall|x: u64| #![trigger o1.contains_key(x)] o1.contains_key(x) == o2.contains_key(x) && (o1.contains_key(x) ==> o1[x] == o2[x]) by {
         if a <= x < a + n {
             let i = x - a;
             assert(c.le_bytes()[i] == nat_byte(c.value@, i as nat));
@@ -175,7 +175,7 @@ pub proof fn lemma_load_view(m: Memory, a: u64, c: il::Constant)
             assert(bs =~= lb);
         }
         Endian::Big => {
-            assert forall|i: int| 0 <= i < n implies bs.reverse()[i] == lb[i] by {
+            assert forall|i: int| 0 <= i < n implies #[trigger] bs.reverse()[i] == lb[i] by {
                 lemma_reverse_index(bs, i);
                 assert(view_byte(v, a as nat + (n - 1 - i)) == Some(vbyte(e, c, n - 1 - i)));
             }
